@@ -222,6 +222,33 @@ impl PrepSpec {
     }
 }
 
+/// Encrypted 32-bit word operation through the two-word / one-word wrappers (bdd_2w_to_1w, bdd_1w_to_1w).
+#[derive(Clone, Debug)]
+pub struct WordSpec {
+    pub n: u32,
+    pub op: String,
+    pub threads: usize,
+    pub a: u32,
+    pub b: u32,
+}
+
+impl WordSpec {
+    pub fn to_json(&self) -> Value {
+        json!({"n": self.n, "op": self.op, "threads": self.threads, "a": self.a, "b": self.b})
+    }
+    pub fn from_json(v: &Value) -> WordSpec {
+        WordSpec {
+            n: v["n"].as_u64().unwrap() as u32,
+            op: v["op"].as_str().unwrap().to_string(),
+            threads: v["threads"].as_u64().unwrap() as usize,
+            a: v["a"].as_u64().unwrap() as u32,
+            b: v["b"].as_u64().unwrap() as u32,
+        }
+    }
+}
+
+pub const WORD_OPS: &[&str] = &["add", "sub", "and", "or", "xor", "sll", "srl", "sra", "slt", "sltu", "identity"];
+
 #[derive(Clone, Debug)]
 pub struct SharedSpec {
     pub n: u32,
@@ -273,6 +300,8 @@ pub trait BackendOps: Sync {
     /// Mixed workload of `threads` harness threads on one shared Module / keys / ciphertexts.
     /// With `cfg = None` the per-thread op lists run one after the other on the calling thread.
     fn shared(&self, spec: &SharedSpec, cfg: Option<sched::Config>) -> RunResult;
+    /// Word-level wrappers: `<op>_multi_thread(threads, ..)` (threads = 1 uses the single-threaded entry point).
+    fn word(&self, spec: &WordSpec, w: &Window, cfg: Option<sched::Config>) -> RunResult;
     /// SHARED with plain std threads and no scheduler (engine B / Miri).
     fn shared_unsync(&self, spec: &SharedSpec) -> Result<RunOut, String>;
     /// C12 inventory of single-call ops (see c12/ops.rs)
@@ -333,6 +362,7 @@ macro_rules! backend_impl {
                 pub key: BDDKeyPrepared<DeviceBuf<BE>, CGGI, BE>,
                 pub word8: FheUint<Vec<u8>, u8>,
                 pub word16: FheUint<Vec<u8>, u16>,
+                pub word32: FheUint<Vec<u8>, u32>,
                 pub block_size: usize,
             }
 
@@ -510,11 +540,16 @@ macro_rules! backend_impl {
                 if c.n >= 16 {
                     word16.encrypt_sk(module, 0xC35Au16, &c.sk_prep, &genc, &mut source_xe, &mut source_xa, scratch.borrow());
                 }
+                let mut word32: FheUint<Vec<u8>, u32> = FheUint::alloc_from_infos(&c.glwe_infos);
+                if c.n >= 32 {
+                    word32.encrypt_sk(module, 0x9E37_79B9u32, &c.sk_prep, &genc, &mut source_xe, &mut source_xa, scratch.borrow());
+                }
                 Box::new(BddCtx {
                     layout,
                     key: prepared,
                     word8,
                     word16,
+                    word32,
                     block_size,
                 })
             }
@@ -667,7 +702,11 @@ macro_rules! backend_impl {
                             (out, rep)
                         }};
                     }
-                    if spec.word_bits == 16 { go!(u16, &b.word16) } else { go!(u8, &b.word8) }
+                    match spec.word_bits {
+                        32 => go!(u32, &b.word32),
+                        16 => go!(u16, &b.word16),
+                        _ => go!(u8, &b.word8),
+                    }
                 }
 
                 fn core_op(&self, op: &str, shape: &crate::c12::ops::Shape, w: &Window) -> RunResult {
@@ -685,6 +724,87 @@ macro_rules! backend_impl {
                 fn core_ops(&self) -> &'static [&'static str] {
                     static ALL: std::sync::OnceLock<Vec<&'static str>> = std::sync::OnceLock::new();
                     ALL.get_or_init(|| ops::OPS.iter().chain(ops2::OPS2.iter()).chain(ops3::OPS3.iter()).chain(ops4::OPS4.iter()).copied().collect())
+                }
+
+                fn word(&self, spec: &WordSpec, w: &Window, cfg: Option<sched::Config>) -> RunResult {
+                    use poulpy_bin_fhe::bdd_arithmetic::{Add, And, Identity, Or, Sll, Slt, Sltu, Sra, Srl, Sub, Xor};
+                    let c = ctx(spec.n, 1);
+                    let b = bdd_ctx(c);
+                    let m = &c.module;
+                    let h0 = inputs_hash(c);
+                    let f0 = module_fingerprint(c);
+                    let mut big: ScratchOwned<BE> = ScratchOwned::alloc(1 << 22);
+                    let enc = EncryptionLayout::new_from_default_sigma(c.ggsw_infos).unwrap();
+                    let mut a: FheUintPrepared<DeviceBuf<BE>, u32, BE> = FheUintPrepared::alloc_from_infos(m, &c.ggsw_infos);
+                    let mut bb: FheUintPrepared<DeviceBuf<BE>, u32, BE> = FheUintPrepared::alloc_from_infos(m, &c.ggsw_infos);
+                    a.encrypt_sk(m, spec.a, &c.sk_prep, &enc, &mut Source::new([31u8; 32]), &mut Source::new([32u8; 32]), big.borrow());
+                    bb.encrypt_sk(m, spec.b, &c.sk_prep, &enc, &mut Source::new([33u8; 32]), &mut Source::new([34u8; 32]), big.borrow());
+                    let mut res: FheUint<Vec<u8>, u32> = FheUint::alloc_from_infos(&c.glwe_infos);
+                    let t = spec.threads;
+                    macro_rules! two {
+                        ($single:ident, $multi:ident, $tb:ident, $mtb:ident) => {{
+                            if t > 1 {
+                                let d = res.$mtb(m, t, &c.glwe_infos, &c.ggsw_infos, &b.key);
+                                (d, Box::new(|s: &mut Scratch<BE>, res: &mut FheUint<Vec<u8>, u32>| res.$multi(t, m, &a, &bb, &b.key, s)) as Box<dyn Fn(&mut Scratch<BE>, &mut FheUint<Vec<u8>, u32>)>)
+                            } else {
+                                let d = res.$tb(m, &c.glwe_infos, &c.ggsw_infos, &b.key);
+                                (d, Box::new(|s: &mut Scratch<BE>, res: &mut FheUint<Vec<u8>, u32>| res.$single(m, &a, &bb, &b.key, s)) as Box<dyn Fn(&mut Scratch<BE>, &mut FheUint<Vec<u8>, u32>)>)
+                            }
+                        }};
+                    }
+                    let (declared, call): (usize, Box<dyn Fn(&mut Scratch<BE>, &mut FheUint<Vec<u8>, u32>)>) = match spec.op.as_str() {
+                        "add" => two!(add, add_multi_thread, add_tmp_bytes, add_multi_thread_tmp_bytes),
+                        "sub" => two!(sub, sub_multi_thread, sub_tmp_bytes, sub_multi_thread_tmp_bytes),
+                        "and" => two!(and, and_multi_thread, and_tmp_bytes, and_multi_thread_tmp_bytes),
+                        "or" => two!(or, or_multi_thread, or_tmp_bytes, or_multi_thread_tmp_bytes),
+                        "xor" => two!(xor, xor_multi_thread, xor_tmp_bytes, xor_multi_thread_tmp_bytes),
+                        "sll" => two!(sll, sll_multi_thread, sll_tmp_bytes, sll_multi_thread_tmp_bytes),
+                        "srl" => two!(srl, srl_multi_thread, srl_tmp_bytes, srl_multi_thread_tmp_bytes),
+                        "sra" => two!(sra, sra_multi_thread, sra_tmp_bytes, sra_multi_thread_tmp_bytes),
+                        "slt" => two!(slt, slt_multi_thread, slt_tmp_bytes, slt_multi_thread_tmp_bytes),
+                        "sltu" => two!(sltu, sltu_multi_thread, sltu_tmp_bytes, sltu_multi_thread_tmp_bytes),
+                        _ => {
+                            // one-word wrapper: identity has no dedicated size query; the two-word one of `add` dominates it
+                            let d = res.add_multi_thread_tmp_bytes(m, t.max(1), &c.glwe_infos, &c.ggsw_infos, &b.key);
+                            if t > 1 {
+                                (d, Box::new(|s: &mut Scratch<BE>, res: &mut FheUint<Vec<u8>, u32>| res.identity_multi_thread(t, m, &a, &b.key, s)))
+                            } else {
+                                (d, Box::new(|s: &mut Scratch<BE>, res: &mut FheUint<Vec<u8>, u32>| res.identity(m, &a, &b.key, s)))
+                            }
+                        }
+                    };
+                    let generous = declared.next_multiple_of(64) + 64 * t + 4096;
+                    let mut arena = Arena::new(w, declared, generous);
+                    let arange = arena.range();
+                    let mut body = || {
+                        let scratch: &mut Scratch<BE> = Scratch::<BE>::from_bytes(arena.window());
+                        call(scratch, &mut res);
+                    };
+                    let (r, rep) = match cfg {
+                        Some(mut cfg) => {
+                            cfg.arena = Some(arange);
+                            let (r, rep) = sched::run(cfg, &mut body);
+                            (r, Some(rep))
+                        }
+                        None => (crate::util::catch(&mut body), None),
+                    };
+                    let bytes: Vec<u8> = {
+                        use poulpy_core::layouts::GLWEToRef;
+                        let g = res.to_ref();
+                        let d: &[u8] = g.data().data;
+                        d.to_vec()
+                    };
+                    let out = r.map(|_| RunOut {
+                        outs: vec![bytes],
+                        declared,
+                        per_thread: declared,
+                        window_len: arena.len,
+                        canary_ok: arena.canaries_intact(),
+                        inputs_unchanged: inputs_hash(c) == h0,
+                        module_fingerprint_same: module_fingerprint(c) == f0,
+                        items: 32,
+                    });
+                    (out, rep)
                 }
 
                 fn shared(&self, spec: &SharedSpec, cfg: Option<sched::Config>) -> RunResult {
